@@ -3,7 +3,7 @@
    A n <hex>*                cleanActions
    G nh <hex>* ng <hex>*     GetAllScopesForHost(WithScopesForHost(..), WithScopes(..))
    C <hex>                   parseChallenge
-   H <flavour> <oauth2> ncred {<host> <UPRA flags>}* nreq
+   H <hseed> <flavour> <oauth2> ncred {<host> <UPRA flags>}* np {<hexhdr> <scheme> <hexrealm> <hexservice> <hexscope>}* nreq
        { <host> <body> nh <hex>* ng <hex>* nans <ans>* }*      a history of Client.Do calls
    O nevents <ev>*           syncutil.Once trace acceptance *)
 let show_list l = "L" ^ String.concat "" (List.map (fun s -> " " ^ hex_of_str s) l)
@@ -75,6 +75,15 @@ let () =
            let h = n_of_int (next_int ()) in
            let f = next () in
            (h, { c_user = f.[0] = '1'; c_pass = f.[1] = '1'; c_refresh = f.[2] = '1'; c_access = f.[3] = '1' })) in
+         let key k = List.map (fun c -> n_of_int (Char.code c)) (List.init (String.length k) (String.get k)) in
+         let np = next_int () in
+         let ptable = next_n np (fun () ->
+           let hdr = str_of_hex (next ()) in
+           let sch = (match next () with "basic" -> SchBasic | "bearer" -> SchBearer | _ -> SchUnknown) in
+           let realm = str_of_hex (next ()) in
+           let service = str_of_hex (next ()) in
+           let scope = str_of_hex (next ()) in
+           (hdr, (sch, [(key "realm", realm); (key "service", service); (key "scope", scope)]))) in
          let nreq = next_int () in
          let hist = next_n nreq (fun () ->
            let h = n_of_int (next_int ()) in
@@ -84,8 +93,9 @@ let () =
            let nans = next_int () in
            let script = next_n nans (fun () -> parse_answer (next ())) in
            ({ rq_host = h; rq_hints_host = hh; rq_hints_global = gh; rq_body = body }, script)) in
-         let out = run_model fl oauth2 creds hist in
-         let bad = List.exists (fun (_, r) -> r = RBad) out in
+         let out = run_model fl oauth2 creds ptable hist in
+         let bad = List.exists (fun (_, r) -> r = RBad) out
+                   || List.exists (fun (_, script) -> List.exists (unjudged_header ptable) script) hist in
          if bad then Printf.printf "%s UNJUDGED\n" id
          else
            Printf.printf "%s %s\n" id
